@@ -245,7 +245,7 @@ impl Property for ScProp {
             Variant::C06 => vec!["history_reentered", "history_default_taken"],
             Variant::C07 => vec!["done_state_raised", "top_final_reached", "cancelled_midway"],
             Variant::C08 => vec!["if_executed", "foreach_executed", "error_event_seen"],
-            Variant::C09 => vec!["in_true_seen", "late_binding_doc", "readonly_write_attempted"],
+            Variant::C09 => vec!["in_true_seen", "late_binding_doc", "readonly_write_attempted", "in_evaluated_while_child_runs"],
         }
     }
 
@@ -258,6 +258,9 @@ impl Property for ScProp {
     }
 
     fn generate(&self, rng: &mut Rng, tier: Tier, _index: u64) -> Scenario {
+        if self.v == Variant::C09 && rng.chance(1, 12) {
+            return in_after_invoke_scenario(rng);
+        }
         let p = self.profile(rng, tier);
         let nev = rng.range(3, if tier == Tier::Quick { 10 } else { 14 }) as usize;
         let mut doc;
@@ -368,6 +371,9 @@ impl Property for ScProp {
     }
 
     fn check(&self, v: &RunView, probes: &mut Probes) -> Verdict {
+        if v.sc.kind == "S4-in-after-invoke" {
+            return check_in_after_invoke(v, probes);
+        }
         let mut verdict = Verdict::default();
         if let crate::sim::Outcome::StepBound { .. } = v.outcome {
             // a document may legitimately never come to rest (e.g. done.state.X re-entering X whose initial
@@ -415,7 +421,7 @@ impl Property for ScProp {
         let fams = self.families();
         let mut foreign: Option<&'static str> = None;
         if let Some(d) = compare_t(&expected, &real, v.sc.knobs.snapshots, uses_history, term_start) {
-            let rule = format!("{}.{}", self.id, d.family);
+            let rule = if fams.contains(&d.family) { format!("{}.{}", self.id, d.family) } else { format!("{}.{}", self.id, d.base) };
             let msg = format!(
                 "trace diverges from the W3C reference at observation {} (seq {}): expected {:?}, got {:?}; preceding:\n{}",
                 d.index,
@@ -424,10 +430,14 @@ impl Property for ScProp {
                 d.got,
                 d.context.join("\n")
             );
-            if fams.contains(&d.family) {
+            // a divergence in the termination phase also belongs to the property that owns its kind (In() in an
+            // onexit handler is C09's business also when the handler runs because the session ends)
+            let owned = fams.contains(&d.family) || (d.family == "termination" && fams.contains(&d.base) && d.base != "termination");
+            if owned {
                 // findings are per data model: what the ECMAScript binding does is not what rfsm-expression does
                 let dm_tag = if doc.dm == Dm::Ecma { ":ecmascript" } else { "" };
-                let sig = format!("{}:{}{}", d.family, sig_of(&d.expected, &d.got), dm_tag);
+                let fam = if fams.contains(&d.family) { d.family.to_string() } else { format!("{}-at-termination", d.base) };
+                let sig = format!("{}:{}{}", fam, sig_of(&d.expected, &d.got), dm_tag);
                 verdict.violations.push(viol(self.id, &rule, msg, sig));
             } else {
                 // not this property's rule family: remember it, but still evaluate this property's own
@@ -890,4 +900,105 @@ fn doc_node<'a>(doc: &'a crate::gen::Doc, path: &[usize]) -> &'a crate::gen::Nod
         cur = &cur.children[*i];
     }
     cur
+}
+
+
+// ---------------------------------------------------------------------------------------------
+// C09, second workload: In() in a session that invokes another one (each session has its own state table)
+
+fn in_after_invoke_scenario(rng: &mut Rng) -> Scenario {
+    let dms = ["rfsm-expression", "ecmascript"];
+    let pdm = *rng.pick(&dms);
+    let cdm = *rng.pick(&["rfsm-expression", "ecmascript", "null"]);
+    // the child has states of its own, one of them named like a state of the parent
+    let child_probe = if cdm == "null" { String::new() } else { "<transition event=\"probe\"><script>mark('cin', In('c1'), In('work'), In('idle'))</script></transition>".to_string() };
+    let child = format!(
+        "<scxml xmlns=\"http://www.w3.org/2005/07/scxml\" version=\"1.0\" datamodel=\"{}\" name=\"kid\" initial=\"c1\"><state id=\"c1\">{}<transition event=\"step\" target=\"idle\"/></state><state id=\"idle\">{}</state></scxml>",
+        cdm, child_probe, child_probe
+    );
+    let probe = "<transition event=\"probe\"><script>mark('in', In('idle'), In('work'), In('c1'))</script></transition>";
+    let parent = format!(
+        "<scxml xmlns=\"http://www.w3.org/2005/07/scxml\" version=\"1.0\" datamodel=\"{}\" name=\"par\" initial=\"idle\">\n <state id=\"idle\">{}<transition event=\"go\" target=\"work\"/></state>\n <state id=\"work\"><invoke id=\"kid\" autoforward=\"true\"><content>{}</content></invoke>{}<transition event=\"back\" target=\"idle\"/></state>\n</scxml>\n",
+        pdm, probe, child, probe
+    );
+    let mut script = vec![Step::Start { doc: 0 }, Step::Send { sess: 0, ev: EvSpec::simple("probe") }];
+    for _ in 0..rng.range(1, 2) {
+        script.push(Step::Send { sess: 0, ev: EvSpec::simple("go") });
+        if rng.chance(1, 2) {
+            script.push(Step::Quiesce);
+        }
+        script.push(Step::Send { sess: 0, ev: EvSpec::simple("probe") });
+        if rng.chance(1, 2) {
+            script.push(Step::Send { sess: 0, ev: EvSpec::simple("step") });
+            script.push(Step::Send { sess: 0, ev: EvSpec::simple("probe") });
+        }
+        script.push(Step::Quiesce);
+        script.push(Step::Send { sess: 0, ev: EvSpec::simple("back") });
+        script.push(Step::Send { sess: 0, ev: EvSpec::simple("probe") });
+        script.push(Step::Quiesce);
+    }
+    let mut notes = BTreeMap::new();
+    notes.insert("parent_dm".to_string(), pdm.to_string());
+    notes.insert("child_dm".to_string(), cdm.to_string());
+    Scenario { kind: "S4-in-after-invoke".into(), docs: vec![DocSrc { name: "par".into(), xml: parent, via_rfsm: false, model: None }], files: vec![], script, producers: vec![], knobs: Knobs { snapshots: false, ..Default::default() }, notes }
+}
+
+fn check_in_after_invoke(v: &RunView, probes: &mut Probes) -> Verdict {
+    use rfsm_verif_seams::rec::RecKind;
+    let mut verdict = Verdict::default();
+    if !outcome_gate(v, &mut verdict) {
+        return verdict;
+    }
+    let parent = match v.out.root_sessions.first() {
+        Some(s) if *s != 0 => *s,
+        _ => {
+            verdict.discarded = Some("harness: parent not started".into());
+            return verdict;
+        }
+    };
+    // per session: state id -> name, from the enter callbacks
+    let mut names: BTreeMap<(u32, u32), String> = BTreeMap::new();
+    for r in v.log {
+        if let RecKind::Enter { state, name } = &r.kind {
+            names.insert((r.session, *state), name.clone());
+        }
+    }
+    let child_started = v.rec.session_task.keys().any(|s| *s != parent);
+    let dm_tag = format!("{}-invokes-{}", v.sc.notes.get("parent_dm").cloned().unwrap_or_default(), v.sc.notes.get("child_dm").cloned().unwrap_or_default());
+    for r in v.log {
+        if let RecKind::Mark { args, config } = &r.kind {
+            let tag = args.first().map(|s| s.trim_matches('\'').to_string()).unwrap_or_default();
+            let asked: &[&str] = match tag.as_str() {
+                "in" => &["idle", "work", "c1"],
+                "cin" => &["c1", "work", "idle"],
+                _ => continue,
+            };
+            let active: BTreeSet<String> = config.iter().filter_map(|id| names.get(&(r.session, *id)).cloned()).collect();
+            verdict.evaluations += 1;
+            if r.session == parent && child_started && active.contains("work") {
+                probes.hit("in_evaluated_while_child_runs");
+            }
+            if active.iter().any(|_| true) {
+                probes.hit("in_true_seen");
+            }
+            for (k, st) in asked.iter().enumerate() {
+                let got = args.get(k + 1).map(|s| s.as_str()).unwrap_or("");
+                let want = if active.contains(*st) { "true" } else { "false" };
+                if got != want {
+                    let who = if r.session == parent { "parent" } else { "child" };
+                    verdict.violations.push(viol(
+                        "C09",
+                        "C09.in-predicate",
+                        format!("In('{}') evaluated to {} in the {} session while its configuration was {:?}", st, got, who, active),
+                        format!("in-wrong:{}:{}", who, dm_tag),
+                    ));
+                }
+            }
+        }
+    }
+    // keep the other required probes of C09 satisfied by construction of the main workload only
+    verdict.nontrivial = child_started;
+    let mut seen = BTreeSet::new();
+    verdict.violations.retain(|x| seen.insert((x.rule.clone(), x.signature.clone())));
+    verdict
 }
